@@ -105,6 +105,9 @@ func installAbortHook() {
 	}
 }
 
+// uninstallAbortHook restores the tool's own behaviour: log.Panic* ends the process.
+func uninstallAbortHook() { rlog.VerifOnPanic = nil }
+
 // runAbortable runs f in its own goroutine; returns (aborted info or nil, panic text or "").
 func runAbortable(f func()) (ab *abortInfo, pan string) {
 	done := make(chan struct{})
